@@ -280,7 +280,7 @@ package storage
 
 // ---- file store: counters, allocation, cache (C01 C02 C11 C16) ----
 
-//@ spec pred cacheOK(f *fileStore) { f.cache != nil && lruInv(f.cache) && f.cache.maxNodes >= 0 }
+//@ spec pred cacheOK(f *fileStore) { f.cache != nil && lruInv(f.cache) && f.cache.maxNodes >= 0 && f.file != nil }
 //@ spec pred cached(f *fileStore, n *btreeNode) { has(f.cache.cache, n.fileOffset) && centry(f.cache.cache[n.fileOffset]).val == n }
 
 // Lock typestate (C13): txn is 0 when the session goroutine holds no lock on the store, 1 while it
@@ -545,7 +545,7 @@ package storage
 //@   modifies storeState, openStores, listLen, listAt, listPos, listOf
 //@   ensures err != nil ==> result0 == nil && openStores == old(openStores)
 //@   ensures err == nil ==> result0 != nil && fresh(result0) && result0.autoFlushCache == autoFlushCache && cacheOK(result0) &&
-//@              openStores == old(openStores) + (autoFlushCache ? 1 : 0)
+//@              openStores == old(openStores) + (autoFlushCache ? 1 : 0) && fresh(result0.file) && fpos(result0.file) == 0
 
 //@ func (f *fileStore) abandon()
 //@   props C17
@@ -555,8 +555,9 @@ package storage
 
 //@ func (f *fileStore) open() error
 //@   props C17 C12
-//@   trusted
-//@   modifies f.lastKey, f.pageTableRoot, f.nextFreeOffset, f._nextLSN, storeState
+//@   requires f.file != nil
+//@   modifies f.lastKey, f.pageTableRoot, f.nextFreeOffset, f._nextLSN, fpos(f.file)
+//@   ensures[header; C12 C17] result == nil && old(fpos(f.file)) == 0 ==> headerIs(f)
 
 //@ func dbFilePath(db string) (string, bool, error)
 //@   props C17
@@ -693,7 +694,7 @@ package storage
 //@   callback f preserves all(btreeNode.offsets), all(btreeNode.leafCells), all(btreeNode.internalCells), all(btreeNode.isLeaf),
 //@              all(btreeNode.hasRSib), all(btreeNode.rSibFileOffset), all(btreeNode.fileOffset), all(leafCell.key), all(leafCell.deleted),
 //@              allelems(uint16), allelems(*leafCell), allelems(*internalCell),
-//@              @cacheState, all(fileStore.cache), all(fileStore.autoFlushCache), all(LRUCache.list), all(LRUCache.cache), all(LRUCache.maxNodes),
+//@              @cacheState, all(fileStore.cache), all(fileStore.file), all(fileStore.autoFlushCache), all(LRUCache.list), all(LRUCache.cache), all(LRUCache.maxNodes),
 //@              all(list.Element.Value), all(cacheEntry.key), all(BTree.store), txn
 //@   modifies all(leafCell.pg), listLen(fsOf(b).cache.list), listAt(fsOf(b).cache.list), listPos, listOf, mapof(fsOf(b).cache.cache), all(cacheEntry.val)
 //@   ensures btOK(b)
@@ -927,7 +928,7 @@ package storage
 //@   requires fs != nil && cacheOK(fs) && !fs.autoFlushCache && txn == 0 && logWF(w)
 //@   assume[rowid-no-wrap] fs.lastKey + len(w) <= 4294967295
 //@   assume[lsn-no-wrap] forall i int :: 0 <= i && i < len(w) ==> w[i].LSN < 18446744073709551615
-//@   modifies @treeState, @cacheState, storeState, fs._nextLSN, fs.lastKey, fs.nextFreeOffset, txn, written, all(BTree.rootOffset)
+//@   modifies @treeState, @cacheState, storeState, fs._nextLSN, fs.lastKey, fs.nextFreeOffset, txn, written, all(BTree.rootOffset), fdata, fsize
 //@   ensures[L8; C02] fs._nextLSN >= old(fs._nextLSN)
 //@   ensures[L7; C02 C03] result == nil ==> fs.lastKey >= old(fs.lastKey)
 //@   ensures[unlock; C13] txn == 0
@@ -940,25 +941,30 @@ package storage
 
 //@ ghost var written(n *btreeNode) bool
 //@ func (f *fileStore) update(node *btreeNode) error
-//@   props C04 C12 C13
-//@   trusted
+//@   props C04 C12 C13 C16
 //@   requires fsExcl(f) && cacheOK(f) && node != nil
-//@   modifies listLen(f.cache.list), listAt(f.cache.list), listPos, listOf, mapof(f.cache.cache), all(cacheEntry.val), storeState, written(node)
+//@   requires[enc] encodable(node) && node.fileOffset <= 9223372036854771711
+//@   modifies listLen(f.cache.list), listAt(f.cache.list), listPos, listOf, mapof(f.cache.cache), all(cacheEntry.val), storeState, written(node), fdata(f.file), fsize(f.file)
 //@   ensures cacheOK(f)
-//@   ensures result == nil ==> written(node)
-//@   ensures result != nil ==> written(node) == old(written(node))
+//@   ensures_assumed[ghost.written] result == nil ==> written(node)
+//@   ensures_assumed[ghost.written.err] result != nil ==> written(node) == old(written(node))
+//@   ensures[image; C12 C16] result == nil ==> (node.isLeaf && old(leafIs(node)) ==> fLeafImage(f.file, node.fileOffset)) && (!node.isLeaf && old(intIs(node)) ==> fIntImage(f.file, node.fileOffset))
+//@   ensures[kind; C12 C16] result == nil ==> fdata(f.file, node.fileOffset) == (node.isLeaf ? 1 : 0)
+//@   ensures[others.kept; C12 C16] forall k int :: (k < node.fileOffset || k >= node.fileOffset + 4096) ==> fdata(f.file,k) == old(fdata(f.file,k))
 
 //@ func (f *fileStore) save() error
-//@   props C04 C12 C13
-//@   trusted
-//@   requires fsExcl(f)
-//@   modifies storeState
+//@   props C04 C12 C13 C17
+//@   requires fsExcl(f) && cacheOK(f)
+//@   modifies storeState, fdata(f.file), fsize(f.file)
+//@   ensures[header; C12 C17] result == nil ==> headerIs(f) && fsize(f.file) >= 28
+//@   ensures[pages.kept; C12] forall k int :: k >= 28 ==> fdata(f.file, k) == old(fdata(f.file, k))
 
 //@ func (f *fileStore) flushPages() error
 //@   props C04 C13 C16
 //@   reveal lruInv
 //@   requires txn == 0 && cacheOK(f)
-//@   modifies txn, all(btreeNode.dirty), @cacheState, storeState, written
+//@   assumepre (*fileStore).update.enc A-CACHE: every page in the cache is a node the codec can represent, at an offset below 2^63 (pages enter the cache from fetch - trusted nodeOK - or freshly created, and every verified mutator re-establishes nodeOK for the pages it touches; the cache-wide statement is not proved)
+//@   modifies txn, all(btreeNode.dirty), @cacheState, storeState, written, fdata(f.file), fsize(f.file)
 //@   ensures[unlock; C13] txn == 0
 //@   ensures[cache] cacheOK(f)
 //@   ensures[clean; C04 C16] forall n *btreeNode :: written(n) && !old(written(n)) ==> !n.dirty
@@ -999,7 +1005,7 @@ package storage
 //@ func (rs *RelationService) CreateTable(r *Relation, tableName string) error
 //@   props C13 C14
 //@   requires rsOK(rs) && txn == 0 && r != nil
-//@   modifies txn, @treeState, @cacheState, storeState, rs.fs._nextLSN, rs.fs.lastKey, rs.fs.nextFreeOffset, rs.fs.pageTableRoot, written
+//@   modifies txn, @treeState, @cacheState, storeState, rs.fs._nextLSN, rs.fs.lastKey, rs.fs.nextFreeOffset, rs.fs.pageTableRoot, written, fdata, fsize
 //@   ensures[unlock; C13] txn == 0
 
 //@ func (rs *RelationService) MarkDeleted(tableName string, rowID uint32) (WALBatch, error)
@@ -1111,6 +1117,7 @@ package storage
 //@   ensures[onepage; C12] bufr(result0) == 0 && bufw(result0) == 4096
 //@   ensures[kind; C12] bufdata(result0, 0) == 1
 //@   ensures[image; C12] old(leafIs(n)) ==> leafImage(result0, 0)
+//@   ensures[fits; C12] old(leafIs(n)) ==> alFree() >= 0
 //@   loop 1 invariant 0 <= i && i <= cnt(n) && bufr(buf) == 0 && bufw(buf) == 39 + 2*i && bufdata(buf,0) == 1
 //@   loop 1 invariant[hdr] old(leafIs(n)) ==> leafHdr(buf,0) && leafOffs(buf,0,i)
 //@   loop 2 invariant 0 <= i && i <= cellCount && cellCount == cnt(n) && bufr(bufFooter) == 0 && 0 <= bufw(bufFooter) && bufw(bufFooter) <= 409*i && bufFooter != buf
@@ -1148,7 +1155,7 @@ package storage
 //@   ensures[total; C12] err == nil && result0 != nil && fresh(result0)
 //@   ensures[onepage; C12] bufr(result0) == 0 && bufw(result0) == 4096
 //@   ensures[kind; C12] bufdata(result0, 0) == (n.isLeaf ? 1 : 0)
-//@   ensures[image; C12] (n.isLeaf && old(leafIs(n)) ==> leafImage(result0, 0)) && (!n.isLeaf && old(intIs(n)) ==> intImage(result0, 0))
+//@   ensures[image; C12] (n.isLeaf && old(leafIs(n)) ==> leafImage(result0, 0) && alFree() >= 0) && (!n.isLeaf && old(intIs(n)) ==> intImage(result0, 0))
 
 //@ func (n *btreeNode) decode(buf *bytes.Buffer) error
 //@   props C12 C16
@@ -1182,3 +1189,23 @@ package storage
 //@           (atKind(i) == TypeVarchar ==> typeof(colVal(q,i)) == typ(string) && len(colVal(q,i).(string)) == len(colVal(r,i).(string)) &&
 //@               (forall k int :: 0 <= k && k < len(colVal(r,i).(string)) ==> colVal(q,i).(string)[k] == colVal(r,i).(string)[k]))) }
 //@ lemma[C08] rtTuple: forall r, q *Tuple, n int :: tupleIs(r, n) && decodedAs(q, n) && (forall i int :: 0 <= i && i < n ==> kindOK(atKind(i))) ==> sameCols(r, q, n)
+
+// ---- data file (C12 C16 C17): byte-level model of *os.File (govc/streams.go) ----
+//@ spec func fle16(f *os.File, p int) int { fdata(f,p) + 256*fdata(f,p+1) }
+//@ spec func fle32(f *os.File, p int) int { fdata(f,p) + 256*fdata(f,p+1) + 65536*fdata(f,p+2) + 16777216*fdata(f,p+3) }
+//@ spec func fle64(f *os.File, p int) int { fle32(f,p) + 4294967296*fle32(f,p+4) }
+// File header (28 bytes at offset 0): lastKey(4) pageTableRoot(8) nextFreeOffset(8) nextLSN(8).
+//@ spec pred headerIs(f *fileStore) { fle32(f.file,0) == f.lastKey && fle64(f.file,4) == f.pageTableRoot && fle64(f.file,12) == f.nextFreeOffset && fle64(f.file,20) == f._nextLSN }
+
+// The same layouts on the data file (generated from the buffer versions by renaming).
+//@ spec pred fIntHdr(b *os.File, p int) { fdata(b,p) == 0 && fle64(b,p+1) == aiFileOffset() && fle64(b,p+9) == aiLSN() && fle64(b,p+17) == aiRight() && fle32(b,p+25) == aiCnt() }
+//@ spec pred fIntOffs(b *os.File, p int, m int) { forall i int :: 0 <= i && i < m ==> fle16(b, p+29+2*i) == aiOff(i) }
+//@ spec pred fIntCells(b *os.File, c int, m int) { forall i int :: 0 <= i && i < m ==> fle32(b, c+12*i) == aiKey(i) && fle64(b, c+12*i+4) == aiChild(i) }
+//@ spec pred fIntImage(b *os.File, p int) { fIntHdr(b,p) && fIntOffs(b,p,aiCnt()) && fle16(b, p+29+2*aiCnt()) == aiFree() && fIntCells(b, p+31+2*aiCnt()+aiFree(), aiCnt()) }
+//@ spec pred fLeafHdr(b *os.File, p int) { fdata(b,p) == 1 && fle64(b,p+1) == alFileOffset() && fle64(b,p+9) == alLSN() &&
+//@        fdata(b,p+17) == (alHasL() ? 1 : 0) && fdata(b,p+18) == (alHasR() ? 1 : 0) && fle64(b,p+19) == alLSib() && fle64(b,p+27) == alRSib() && fle32(b,p+35) == alCnt() }
+//@ spec pred fLeafOffs(b *os.File, p int, m int) { forall i int :: 0 <= i && i < m ==> fle16(b, p+39+2*i) == alOff(i) }
+//@ spec pred fLeafCellsAt(b *os.File, c int, m int) { forall i int :: 0 <= i && i < m ==>
+//@        fle32(b, c+alPos(i)) == alKey(i) && fdata(b, c+alPos(i)+4) == (alDel(i) ? 1 : 0) && fle32(b, c+alPos(i)+5) == alSize(i) &&
+//@        (forall k int :: 0 <= k && k < alSize(i) ==> fdata(b, c+alPos(i)+9+k) == alVal(i,k)) }
+//@ spec pred fLeafImage(b *os.File, p int) { fLeafHdr(b,p) && fLeafOffs(b,p,alCnt()) && fle16(b, p+39+2*alCnt()) == alFree() && fLeafCellsAt(b, p+4096-alPos(alCnt()), alCnt()) }
